@@ -302,9 +302,9 @@ Qed.
 Lemma conv_single_cr q : conv q [CR] = pend q.
 Proof. destruct q; reflexivity. Qed.
 
-Theorem piece_ok lastcr d : d <> [] ->
-  exists w0 ws, piece lastcr d = Ok (w0, endcr lastcr d, ws)
-    /\ concat (w0 ++ ws) = conv lastcr d
+Theorem piece_ok lastcr addcr d : d <> [] ->
+  exists w0 ws, piece lastcr addcr d = Ok (w0, endcr lastcr d, ws)
+    /\ concat (w0 ++ ws) = conv lastcr d ++ (if addcr && endcr lastcr d then [CR] else [])
     /\ (w0 = [] \/ w0 = [[CR]]).
 Proof.
   intros Hne. destruct (last_decomp d Hne) as (body & x & Hd & Hx & Hbody).
@@ -330,7 +330,8 @@ Proof.
   { unfold sub. cbn [skipn]. rewrite <- Hbl. apply firstn_app_exact. }
   rewrite Hsub in Hcat. cbn [concat app] in Hcat.
   split.
-  - rewrite concat_app, concat_app. cbn [concat]. rewrite app_nil_r, Hcat.
+  - rewrite concat_app, concat_app. cbn [concat]. rewrite app_nil_r.
+    rewrite (app_assoc (concat ws)), app_assoc. f_equal. rewrite Hcat.
     assert (Hw0 : concat (if lastcr && negb (N.eqb (nth 0 d 0%N) LF) then [[CR]] else [])
                   = if lastcr && negb (starts_lf body') then [CR] else []).
     { assert (Hs : N.eqb (nth 0 d 0%N) LF = starts_lf body' \/ (body' = [] /\ d = [CR])).
